@@ -85,6 +85,11 @@ def option_items(tier):
         # a holiday inserted before the ones the run had, then "the absence steps" deleted: the stored list names a worked step by then; whatever is deleted is deleted at every level
         for ab, ins in (([3], [1]), ([2], [0]), ([1, 4], [2]), ([2], [1, 2])):
             out.append((sp, dict(o, absence=ab, post_insert=ins, post_remove="after-insert")))
+    # the project calendar handed over as floats or numpy integers of the same values
+    for sp, o in base[:: (7 if tier == "quick" else 2)]:
+        for ab in ([1, 2], [0, 3], [2]):
+            for how in ("float", "numpy"):
+                out.append((sp, dict(o, absence=ab, absence_as=how)))
     # the public log reversal called by hand (once, twice) on forward results with and without absence steps
     for sp, o in base[:: (7 if tier == "quick" else 2)]:
         for n in (1, 2):
